@@ -4,7 +4,7 @@ from __future__ import annotations
 import random
 from pathlib import Path
 
-from .. import models, pdugen, prep, wire
+from .. import models, pdugen, prep, vclock, wire
 from ..rec import MemFilestore
 from ..world import PROTO_EXC, World
 
@@ -119,7 +119,8 @@ def gen_cases(tier, seed):
     cases = []
     for _ in range(n):
         cfg, eff = gen_cfg(rng)
-        cases.append({"t": "grid", "cfg": cfg, "eff": eff, "peer_lag": rng.choice([0, 0, 1, 3])})
+        cases.append({"t": "grid", "cfg": cfg, "eff": eff, "peer_lag": rng.choice([0, 0, 1, 3]), "eof_resends": rng.choice([0, 0, 0, 1, 2]),
+                      "second": rng.random() < 0.25})
     # large file
     for i, (mode, crc, idw, seqw) in enumerate([("ack", False, 2, 16), ("unack", True, 1, 8), ("ack", True, 4, 32), ("unack", False, 8, 16)]):
         for maxpkt in ((64, 4096) if tier == "quick" else (64, 1000, 4096)):
@@ -154,12 +155,13 @@ def check_common(d, raw, want, viol, where):
     return True
 
 
-def run_stream(w: World, case, data_fn, size, eff, cks, want_hdr, md_want, peer_lag, max_calls, head_only=False):
+def run_stream(w: World, case, data_fn, size, eff, cks, want_hdr, md_want, peer_lag, max_calls, head_only=False, eof_resends=0):
     """Drives the sender call by call; returns (viol, obs)."""
     viol, obs = [], {}
     S = w.S
-    tc = prep.tx_conf(w)
+    tc = prep.tx_conf(w, seq=want_hdr["seq"])
     maxpkt = w.cfg["maxpkt"]
+    mark_seq = w.log.seq
     try:
         ok = w.put()
     except Exception as e:  # noqa: BLE001
@@ -173,8 +175,29 @@ def run_stream(w: World, case, data_fn, size, eff, cks, want_hdr, md_want, peer_
     acked = fin_sent = False
     ack_mode = not want_hdr["unack"]
     fd_count = 0
+    first_eof = None
     while ncalls < max_calls:
         pdu_in = None
+        if eof_seen_call is not None and ack_mode and not acked and eof_resends > 0 and first_eof is not None and ncalls - eof_seen_call > peer_lag:
+            # the ACK(EOF) is late: at the expiry of the positive ACK timer the very same EOF PDU must be emitted again
+            eof_resends -= 1
+            S.outbox.clear()
+            vclock.use(w.clock)
+            vclock.advance_to_next_expiry()
+            try:
+                S.sm()
+            except Exception as e:  # noqa: BLE001
+                viol.append({"clause": "state-machine-raised-at-ack-timer-expiry", "etype": type(e).__name__, "msg": str(e)[:150]})
+                break
+            ncalls += 1
+            max_calls += 1
+            got = [it["raw"] for it in S.outbox]
+            if got != [first_eof]:
+                viol.append({"clause": "re-sent-eof-differs-from-first-eof", "got": [wire.short(it["d"]) for it in S.outbox], "first": wire.short(wire.describe(first_eof)),
+                             "got_hex": [g.hex() if g else None for g in got][:2], "first_hex": first_eof.hex()})
+                break
+            obs["eof_resends_checked"] = obs.get("eof_resends_checked", 0) + 1
+            continue
         if eof_seen_call is not None and ncalls - eof_seen_call > peer_lag:
             if ack_mode and not acked:
                 pdu_in = pdugen.raw("ACK_EOF", tc)
@@ -251,6 +274,7 @@ def run_stream(w: World, case, data_fn, size, eff, cks, want_hdr, md_want, peer_
                     continue
                 phase = "eof"
                 eof_seen_call = ncalls
+                first_eof = raw
                 if next_off != size:
                     viol.append({"clause": "eof-before-file-data-complete", "tiled_up_to": next_off, "size": size})
                 want_ck = None if cks is None else cks
@@ -295,7 +319,7 @@ def run_stream(w: World, case, data_fn, size, eff, cks, want_hdr, md_want, peer_
         elif not w.cfg["metadata_only"] and phase != "eof":
             viol.append({"clause": "stream-incomplete-no-eof", "phase": phase})
         else:
-            fins = [e["fin"] for e in w.log.of("ind_finished", "S")]
+            fins = [e["fin"] for e in w.log.of("ind_finished", "S") if e["seq"] >= mark_seq]
             if len(fins) != 1 or fins[0][0] != "NO_ERROR":
                 viol.append({"clause": "sender-transaction-finished", "fins": fins})
     return viol, obs
@@ -322,7 +346,24 @@ def run_case(case):
                 size, data = len(w.data), w.data
                 cks = models.checksum(c["cks"], data).hex()
             nseg = -(-size // max(1, case["eff"]))
-            viol, obs = run_stream(w, case, lambda o, n: data[o : o + n], size, case["eff"], cks, want_hdr, md_want, case["peer_lag"], nseg + 14 + case["peer_lag"] * 2)
+            viol, obs = run_stream(w, case, lambda o, n: data[o : o + n], size, case["eff"], cks, want_hdr, md_want, case["peer_lag"], nseg + 14 + case["peer_lag"] * 2,
+                                   eof_resends=case.get("eof_resends", 0))
+            if case.get("second") and not viol and not c["metadata_only"]:
+                # the same sender object handles a second put request for a file with other content (same configuration, next sequence number)
+                data2 = bytes((b * 7 + 3) & 0xFF for b in data) + b"tail"[: size % 3]
+                w.data = data2
+                w.write_raw("src", w.src_path, data2)
+                want2 = dict(want_hdr, seq=(want_hdr["seq"] + 1) % (1 << c["seqw"]))
+                md2 = dict(md_want, size=len(data2))
+                cks2 = models.checksum(c["cks"], data2).hex()
+                nseg2 = -(-len(data2) // max(1, case["eff"]))
+                v2, o2 = run_stream(w, case, lambda o, n: data2[o : o + n], len(data2), case["eff"], cks2, want2, md2, case["peer_lag"], nseg2 + 14 + case["peer_lag"] * 2,
+                                    eof_resends=case.get("eof_resends", 0))
+                for x in v2:
+                    x["second_put_on_same_sender"] = True
+                viol += v2
+                obs["second_streams_on_same_sender"] = 1
+                obs["eof_resends_checked"] = obs.get("eof_resends_checked", 0) + o2.get("eof_resends_checked", 0)
             obs["mode_" + mode] = 1
             obs["closure_from_" + ("request" if c["req_closure"] == "cfg" else "mib")] = 1
             obs["request_contradicts_mib"] = int(bool(rc))
@@ -362,4 +403,4 @@ def run_case(case):
 
 
 REQUIRED = {"metadata_checked": 100, "eof_checked": 100, "empty_file_eof_checked": 5, "ack_finished_checked": 20, "full_segments": 200,
-            "fd_pdu_exactly_max_packet_len": 20, "large_file_cases": 4, "mixed_id_width": 20, "request_contradicts_mib": 20}
+            "fd_pdu_exactly_max_packet_len": 20, "large_file_cases": 4, "mixed_id_width": 20, "request_contradicts_mib": 20, "eof_resends_checked": 100, "second_streams_on_same_sender": 100}
